@@ -5,7 +5,7 @@
      enc <fresh|share> <major> <minor> <dump>
                                         encode the expression of a tree dump: <hex> \t <decode of these bytes>
      fmap <major> <minor> <hex>         field map of a valid stream: off:len:kind ... (for mutation)
-     mat <major> <minor> <hex>          DenseMatrix stream: OK \t rows cols \t dumps separated by " ;; "
+     mat <major> <minor> <hex>          DenseMatrix stream: OK \t rows cols \t dumps separated by " ;; " \t REENC=<0|1>
    No model data lives in OCaml ints except byte values, digit values and lengths used for I/O. *)
 open Semodel
 open Expr_io
@@ -182,12 +182,13 @@ let () =
         | "mat" :: ma :: mi :: [hx] ->
             let ver = (n_of_dec ma, n_of_dec mi) in
             print_endline (res_str (fun ((r, c), ws) ->
-                "OK\t" ^ dec_of_n r ^ " " ^ dec_of_n c ^ "\t" ^ String.concat " ;; " (List.map (fun w -> dump (wt_expr w)) ws))
+                "OK\t" ^ dec_of_n r ^ " " ^ dec_of_n c ^ "\t" ^ String.concat " ;; " (List.map (fun w -> dump (wt_expr w)) ws)
+                ^ "\tREENC=" ^ (if hex_of_bytes (encode_matrix false ver r c ws) = hx then "1" else "0"))
               (decode_matrix ver (bytes_of_hex hx)))
         | ["classes"] ->
             let b x = if x then "1" else "0" in
             let kind tc = match kind_of tc with
-              | KComplexDouble -> "cb" | KOneArg -> "f1" | KTwoArg -> "f2" | KMultiArg -> "fn" | KNone -> "none"
+              | KOneArg -> "f1" | KTwoArg -> "f2" | KMultiArg -> "fn" | KNone -> "none"
               | KNot -> "own" | _ -> "own" in
             let kind tc = if List.mem (class_name tc) ["Equality"; "Unequality"; "LessThan"; "StrictLessThan"] then "f2" else kind tc in
             print_endline (String.concat " " (List.init (small_of_n tC_Count) (fun i ->
